@@ -870,6 +870,11 @@ TEXTBOOK_FLOWS = [
      [1, 1, 1, 1]),
     ([["e0", [], [["A", 2]]], ["e1", [["A", 1]], [["B", 1]]], ["e2", [["B", 2]], []]], [1, 2, 1]),
     ([["e0", [], [["A", 1]]], ["e1", [["A", 1]], []]], [3, 3]),
+    # pathways of total length 1 (only possible with an edge without effective reactants and products)
+    ([["e0", [], []]], [1]),
+    ([["e0", [], []]], [2]),
+    ([["e0", [["A", 0]], []], ["e1", [], [["A", 1]]], ["e2", [["A", 1]], []]], [1, 0, 0]),
+    ([["e0", [["A", 0]], [["A", 0]]], ["e1", [], [["A", 1]]], ["e2", [["A", 1]], []]], [1, 1, 1]),
 ]
 
 
